@@ -37,12 +37,14 @@ type Sess struct {
 	usedAxioms []string
 	heapOwner map[string]string
 	axiomErrs []string
+	nq int
+	heapElemT map[string]types.Type
 }
 
 func NewSess(g *Gen, mode string) *Sess {
 	s := &Sess{g: g, mode: mode, sortSeen: map[string]bool{}, funSeen: map[string]bool{}, structs: map[string]*types.Struct{},
 		structT: map[string]types.Type{}, typeIDs: map[string]int{}, notesSet: map[string]bool{}, heapSort: map[string]string{},
-		specBusy: map[string]bool{}, lemmaOK: map[string]bool{}, usedSpec: map[string]bool{}, heapOwner: map[string]string{}}
+		specBusy: map[string]bool{}, lemmaOK: map[string]bool{}, usedSpec: map[string]bool{}, heapOwner: map[string]string{}, heapElemT: map[string]types.Type{}}
 	s.sortDecl = append(s.sortDecl, "(declare-sort Str 0)", "(declare-sort Flt 0)")
 	s.declFun("str_empty", nil, "Str")
 	s.declFun("ityp", []string{"Int"}, "Int")
@@ -347,6 +349,29 @@ func (s *Sess) rangeFact(t types.Type, x string) string {
 			return ""
 		}
 		return "(and " + strings.Join(fs, " ") + ")"
+	}
+	return ""
+}
+
+func isByteLike(t types.Type) bool {
+	switch u := types.Unalias(t).Underlying().(type) {
+	case *types.Basic:
+		if w, _, ok := intWidth(u); ok && w <= 8 {
+			return true
+		}
+		return u.Info()&types.IsBoolean != 0
+	case *types.Array:
+		return isByteLike(u.Elem())
+	}
+	return false
+}
+
+// heapWellTyped: every object in heap h (field type t) holds well-typed values.
+func (s *Sess) heapWellTyped(h string, t types.Type) string {
+	s.nq++
+	q := fmt.Sprintf("wr%d", s.nq)
+	if f := s.rangeFact(t, "(select "+h+" "+q+")"); f != "" {
+		return "(forall ((" + q + " Int)) (! " + f + " :pattern ((select " + h + " " + q + "))))"
 	}
 	return ""
 }
